@@ -56,12 +56,19 @@ Definition qt_end (t : qtank) : qtank :=
       let '(l2, s', _) := l_update qts qt_port (l_end (qt_l t)) (mkQS (s_cap s) sto sto (s_act s)) in
       mkQT s' l2
   end.
+(* QueueTank.reinit: the internal arc closes its timestep and forgets its queue (AltQueueArc.reinit; a decaying one also
+   forgets the decay it was about to report), the declared contents and what has arrived are emptied *)
+Definition l_reinit (l : altarc) : altarc :=
+  let l1 := l_end l in
+  mkAlt (l_a l1) (l_n l1) [vzero; vzero] (l_qs l1) (l_qs_ l1) (l_dec l1) vzero (l_T l1).
+Definition qt_reinit (t : qtank) : qtank :=
+  mkQT (mkQS (s_cap (qt_s t)) vzero vzero vzero) (l_reinit (qt_l t)).
 Definition qt_ds (t : qtank) : vqip := vds (s_sto (qt_s t)) (s_sto_ (qt_s t)).
 
 (* operations of the queue-tank interpreter (also used by the correspondence check) *)
 Inductive qop :=
 | QPush (v : vqip) (time : nat) (force : bool) | QPull (v : Q) | QPullExact (v : vqip)
-| QCheck (ov : option vqip) | QAvail | QEnd (T : Q) | QDs | QSetT (T : Q).
+| QCheck (ov : option vqip) | QAvail | QEnd (T : Q) | QDs | QSetT (T : Q) | QReinit.
 Definition qtank_do (t : qtank) (o : qop) : qtank * vqip :=
   match o with
   | QPush v time f => qt_push t v time f
@@ -72,4 +79,5 @@ Definition qtank_do (t : qtank) (o : qop) : qtank * vqip :=
   | QEnd T => (qt_end (qt_set_T t T), vzero)
   | QDs => (t, qt_ds t)
   | QSetT T => (qt_set_T t T, vzero)
+  | QReinit => (qt_reinit t, vzero)
   end.
